@@ -7,6 +7,7 @@ CONSTANTS
   WCounts = {3}
   SOffs = {0, 1}
   VBufs = {"full", "line"}
+  MFmts <- MC_None
   VSizes = {0}
   Extra = {"seek0", "seek1", "flush", "close", "peek"}
   Naive = FALSE
